@@ -4,6 +4,7 @@ pub mod c01;
 pub mod c02;
 pub mod c03;
 pub mod c04;
+pub mod c08;
 pub mod c09;
 pub mod c10;
 pub mod c11;
@@ -22,6 +23,7 @@ pub fn property(id: &str, tier: Tier) -> Option<PropertyDef> {
 		"C18" => Some(c18::def(tier)),
 		"C15" => Some(c15::def(tier)),
 		"C14" => Some(c14::def(tier)),
+		"C08" => Some(c08::def(tier)),
 		"C09" => Some(c09::def(tier)),
 		"C13" => Some(c13::def(tier)),
 		"C11" => Some(c11::def(tier)),
@@ -33,4 +35,4 @@ pub fn property(id: &str, tier: Tier) -> Option<PropertyDef> {
 	}
 }
 
-pub const ALL: &[&str] = &["C01", "C02", "C03", "C04", "C09", "C10", "C11", "C13", "C14", "C15", "C16", "C17", "C18"];
+pub const ALL: &[&str] = &["C01", "C02", "C03", "C04", "C08", "C09", "C10", "C11", "C13", "C14", "C15", "C16", "C17", "C18"];
